@@ -27,7 +27,7 @@ type daemon struct {
 	waitErr        error
 }
 
-const exitBound = 5 * time.Second
+const exitBound = 8 * time.Second
 
 func openWriter(path string, timeout time.Duration) *os.File {
 	ch := make(chan *os.File, 1)
